@@ -170,6 +170,18 @@ def truncate_decimal(value: Decimal, precision: int) -> Decimal:
     return round_decimal(value, precision, rounding=decimal.ROUND_DOWN)
 
 
+def decimal_to_str(value: Decimal) -> str:
+    """Formats a decimal value using fixed-point notation.
+
+    str() switches to scientific notation for small values and for values with a positive exponent, e.g.
+    str(Decimal("0.00000085")) is 8.5E-7.
+
+    :param value: The value to format.
+    :returns: The formatted value, without an exponent.
+    """
+    return format(value, "f")
+
+
 def deprecation_warning(message: str):
     warnings.warn(message, DeprecationWarning, stacklevel=2)
 
